@@ -124,8 +124,10 @@ def run(ctx):
             if cp == r.CLOSE.path:
                 closes = [x.idx for x, w in r.sem_calls(cb, 'close')]
                 whichs = sorted(w for x, w in r.sem_calls(cb, 'close'))
-                ok = whichs == ['SEM', 'SIZESEM'] and all(can.dominates(c, bb) for c in closes)
-                ctx.ob('R05.2', 'close() clears only after both semaphores were closed', ok, ctx.where(cb, cb.blocks[bb].term.line), 'closed before clear: %s' % whichs, construct='clear-from-close')
+                flag = r.closed_flag_sem(); recheck = r.add_helper_rechecks_closed()
+                must_before = [x.idx for x, w in r.sem_calls(cb, 'close') if w == flag or not recheck or flag is None]
+                ok = whichs == ['SEM', 'SIZESEM'] and all(can.dominates(c, bb) for c in must_before) and bool(must_before)
+                ctx.ob('R05.2', 'close() clears only after the pool reports itself closed (both semaphores get closed)', ok, ctx.where(cb, cb.blocks[bb].term.line), 'closes: %s' % whichs, construct='clear-from-close')
             else:
                 # must be on the is_closed() == true branch
                 conds = [blk for blk in cb.blocks if blk.term.kind == 'switch' and blk.term.j.get('dty') == 'bool' and
@@ -135,18 +137,7 @@ def run(ctx):
                 ctx.ob('R05.2', 'the queue is cleared outside close() only when the pool is closed', ok, ctx.where(cb, cb.blocks[bb].term.line), 'clear called from %s' % cb.name,
                        construct='clear-from:' + cb.name)
         ctx.floor('R05.2', 'callers of the clearing function', len(callers), 2)
-        for cp, bb, k in callers:
-            cb = prog.bodies[cp]
-            if cp == r.CLOSE.path:
-                continue
-            can = prog.an(cb)
-            conds = [blk for blk in cb.blocks if blk.term.kind == 'switch' and blk.term.j.get('dty') == 'bool' and
-                     any(s[0] == 'call' and s[1].endswith('is_closed') for s in sources(can, blk.term.discr))]
-            falses = [dict(x.term.switch_arms())['false'] for x in conds]
-            esc = can.reach([0], ('normal',), avoid=[bb] + falses)
-            okc = bool(conds) and not any(e in esc for e in can.exits()['return'])
-            ctx.ob('R05.2', 'a closed pool is always cleared when an object comes back (no further condition)', okc, ctx.where(cb, cb.blocks[bb].term.line),
-                   'the clean-up can be skipped although the pool is closed: an object returned then stays in the closed pool' if not okc else '', construct='cleanup-conditional:' + cb.name)
+        cleanup_unconditional(ctx, r, 'R05.2')
 
     # ---- R05.3 ordering ---------------------------------------------------------------------------
     for b in (r.ADD_HELPER, r.OBJ_DROP):
@@ -280,6 +271,9 @@ def run(ctx):
     else:
         ctx.undecide('R05.4', 'From<I>: PoolInner aggregate not found')
 
+    from .rules_C12 import publish_guard
+    publish_guard(ctx, r, 'R05.8')
+
     # ---- R05.5 result mapping of add / try_add ------------------------------------------------------
     for b in (r.ADD, r.TRY_ADD):
         an = prog.an(b)
@@ -392,3 +386,22 @@ def run(ctx):
 
     ctx.not_decided += ['"add() proceeds as soon as remove or take frees a slot" (tokio wake-up)', 'numeric exactness of status() under concurrency']
     ctx.assumptions += ['tokio Semaphore semantics', 'std Vec / Mutex']
+
+
+def cleanup_unconditional(ctx, r, rule):
+    """the clearing function is reached on every path on which the pool is closed (outside close() itself)"""
+    prog = ctx.prog
+    if r.CLEAR is None:
+        return
+    for cp, bb, k in prog.callers_of(r.CLEAR.path):
+        cb = prog.bodies[cp]
+        if cp == r.CLOSE.path:
+            continue
+        can = prog.an(cb)
+        conds = [blk for blk in cb.blocks if blk.term.kind == 'switch' and blk.term.j.get('dty') == 'bool' and
+                 any(s[0] == 'call' and s[1].endswith('is_closed') for s in sources(can, blk.term.discr))]
+        falses = [dict(x.term.switch_arms())['false'] for x in conds]
+        esc = can.reach([0], ('normal',), avoid=[bb] + falses)
+        okc = bool(conds) and not any(e in esc for e in can.exits()['return'])
+        ctx.ob(rule, 'a closed pool is always cleared when an object comes back (no further condition)', okc, ctx.where(cb, cb.blocks[bb].term.line),
+               'the clean-up can be skipped although the pool is closed: an object returned then stays in the closed pool' if not okc else '', construct='cleanup-conditional:' + cb.name)
